@@ -47,4 +47,9 @@ func TestCheckTieFamilies(t *testing.T) {
 	sim.CheckProperty(t, "C15", kit.Budget{Quick: 1500, Thorough: 60000}, sim.GenTieFamily, sim.JudgeLivelock)
 }
 
+// scattered idle GPUs, elastic workloads above their minimum with pods pending: consolidation is tempted every cycle
+func TestCheckFragmentationFamilies(t *testing.T) {
+	sim.CheckProperty(t, "C15", kit.Budget{Quick: 500, Thorough: 20000}, sim.GenFragmentationFamily, sim.JudgeLivelock)
+}
+
 func TestReplay(t *testing.T) { sim.ReplayProperty(t, sim.JudgeLivelock, 5) }
